@@ -67,16 +67,20 @@ func (obj *Array) calcAndSet(list List) {
 	if 0 < len(obj.dims) {
 		orig := list
 		var ok bool
-		size := 1
 		for i := 0; i < len(obj.dims); i++ {
 			obj.dims[i] = len(list)
-			obj.sizes[i] = size
-			size *= len(list)
 			if i < len(obj.dims)-1 {
 				if list, ok = list[0].(List); !ok {
 					ErrorPanic(NewScope(), 0, "Invalid data for a %d dimension array. %s", len(obj.dims), list)
 				}
 			}
+		}
+		// The elements are in row-major order, the last dimension varies
+		// fastest, as in NewArray.
+		size := 1
+		for i := len(obj.dims) - 1; 0 <= i; i-- {
+			obj.sizes[i] = size
+			size *= obj.dims[i]
 		}
 		obj.elements = make([]Object, size)
 		obj.setDim(orig, 0, 0)
